@@ -67,6 +67,7 @@ type RunReport struct {
 	Digest       uint64 // event-log digest of the run (task/site sequence, map perms, outcomes)
 	Explicit     simrt.Schedule
 	TaskSteps    []uint64
+	HotHits      uint64
 }
 
 func runtimeCat(cat string) bool {
@@ -139,6 +140,10 @@ func schedName(s simrt.Schedule) string {
 		return fmt.Sprintf("walk/%d", s.WalkDen)
 	case simrt.StratPCT:
 		return fmt.Sprintf("pct-d%d", s.Depth)
+	case simrt.StratHotWalk:
+		return fmt.Sprintf("hotwalk/%d", s.HotDen)
+	case simrt.StratHotPreempt:
+		return "hot-preempt"
 	}
 	return "?"
 }
@@ -281,6 +286,7 @@ func RunC07(w *Workload, st *Stats, maxYields uint64) *RunReport {
 	res := simrt.Run(fns, w.Sched, maxYields)
 	rep.Explicit = explicitOf(res, w.Sched)
 	rep.TaskSteps = res.TaskSteps
+	rep.HotHits = res.HotHits
 	noteSchedule(st, w, res)
 	dg := hmix(res.Digest, res.MapDigest)
 
